@@ -49,8 +49,11 @@ Definition phi_val_ok (T : list (N * (N * nat))) (D : list (list N)) (p : N) (v 
 Definition inst_ok (P : list N) (T : list (N * (N * nat))) (D : list (list N)) (b : N) (k : nat) (ins : inst) : bool :=
   if i_phi ins then
     let pairs := phi_pairs (i_args ins) in
-    forallb (fun p => existsb (fun pv => N.eqb (fst pv) p) pairs &&
-                      forallb (fun pv => if N.eqb (fst pv) p then phi_val_ok T D p (snd pv) else true) pairs)
+    (* an operand for every predecessor; MakeSSA drops the operand `x = phi(.., p: x)`: then the phi keeps its
+       value on that edge, so the block itself must dominate p *)
+    forallb (fun p => if existsb (fun pv => N.eqb (fst pv) p) pairs
+                      then forallb (fun pv => if N.eqb (fst pv) p then phi_val_ok T D p (snd pv) else true) pairs
+                      else memN b (nthL D p))
             P
   else forallb (use_ok T D b k) (vars_of (i_args ins)).
 Definition ssa_check (f : func) (R : list N) (D : list (list N)) : bool :=
@@ -76,5 +79,6 @@ Definition reads_ok (f : func) (b : N) (k : nat) (S : list N) : Prop :=
   | Some ins => i_phi ins = false -> forall x, In x (vars_of (i_args ins)) -> In x S
   | None =>   (* the block is finished: whichever successor is taken, its phis read the operand for b *)
       forall b', In b' (succs f b) -> forall ins, In ins (leading_phis (nth_block f b')) ->
-      exists v, In (b, v) (phi_pairs (i_args ins)) /\ forall x, v = Some x -> In x S
+      (exists v, In (b, v) (phi_pairs (i_args ins)) /\ forall x, v = Some x -> In x S) \/
+      ((forall v, ~ In (b, v) (phi_pairs (i_args ins))) /\ forall y, In y (i_outs ins) -> In y S)
   end.
